@@ -630,6 +630,30 @@ fn c03_sequence(ctx: &mut Ctx, r: &mut Rng, outcomes: &[bool], ep_fixed: Option<
         } else {
             None
         };
+        // now and then a builder for the same call is made and dropped unsent first: that is not a call - no emit, no
+        // handler invocation, whatever the value
+        if r.chance(1, 6) {
+            let (b0, h0) = (sink.emit_count(), hlog.len());
+            let res = panics::guard(|| build_and_drop(&client, &sp));
+            ctx.rep.obs("builders_dropped_unsent", 1);
+            if !valid {
+                ctx.rep.obs("builders_with_a_rejected_value_dropped_unsent", 1);
+            }
+            let why = if res.is_err() {
+                Some(("no-panic", "unsent-builder-panicked", format!("dropping an unsent builder panicked: {:?}", res)))
+            } else if sink.emit_count() != b0 {
+                Some(("one-call-one-emit", "emit-without-send", "a builder that was dropped without send()/try_send() reached the sink".to_string()))
+            } else if hlog.len() != h0 {
+                Some(("handler-exactly-once-on-failure", "handler-for-unsent-builder", format!("the error handler was invoked ({:?}) for a builder that was dropped without being sent", hlog.from(h0))))
+            } else {
+                None
+            };
+            if let Some((rule, class, detail)) = why {
+                ctx.violation("C03", rule, class, detail, jobj! {"call" => sp.to_json(), "value_valid" => valid, "step" => step});
+                sink.log.lock().unwrap().script.clear();
+                continue;
+            }
+        }
         ctx.rep.eval();
         let before = sink.emit_count();
         let hbefore = hlog.len();
